@@ -30,9 +30,10 @@ type httpCase struct {
 }
 
 type httpWorld struct {
-	w     *World
-	mu    sync.Mutex
-	cases map[int]*httpCase
+	w       *World
+	mu      sync.Mutex
+	cases   map[int]*httpCase
+	tunnels map[string]*httpTunnel
 }
 
 func (hw *httpWorld) viol(oracle, sig, f string, a ...any) { hw.w.Violate("C02", oracle, sig, f, a...) }
@@ -163,6 +164,18 @@ func worldHTTP(w *World) {
 		w.UserN.Go(func() {
 			defer wg.Done()
 			hw.userConn(addr, ip, cs, rewriteHost, setReq, setResp)
+		})
+	}
+	// protocol upgrade and CONNECT through the vhost port, concurrently with the rest
+	ntun := w.KnobPick("tunnels", 0, 1, 2, 3)
+	for i := 0; i < ntun; i++ {
+		t := hw.newTunnel(i, w.KnobBool(fmt.Sprintf("tunnel%d.connect", i), 50))
+		ip := fmt.Sprintf("10.0.3.%d", 60+i)
+		wg.Add(1)
+		w.UserN.Go(func() {
+			defer wg.Done()
+			time.Sleep(time.Duration(simnet.NewRand(w.In.Seed, "tstart"+t.id).Range(0, 800)) * time.Millisecond)
+			hw.tunnelProbe(addr, ip, t)
 		})
 	}
 	// error paths run concurrently with the healthy traffic
@@ -312,6 +325,10 @@ func (hw *httpWorld) backendConn(conn net.Conn) {
 	for {
 		m, err := readRawMsg(br, true, false)
 		if err != nil {
+			return
+		}
+		if tid := m.get("X-Tunnel"); len(tid) == 1 {
+			hw.backendTunnel(conn, br, m, tid[0])
 			return
 		}
 		ids := m.get("X-Case")
